@@ -10,6 +10,6 @@ def run(repo, res, tier):
         "class. E-ALIAS: the parser's mutable error list is copied, not aliased, into the returned module. "
         "E-GLOBAL: no function of parser/decoder/encoder/lexer/token/grammar writes module-level or class-level "
         "state or mutates a default-argument object. Not decided: state kept by user-supplied classes.")
-    effects.rule_estate(repo, res)
+    effects.rule_estate(repo, res, floor=2)
     effects.rule_alias(repo, res)
     effects.rule_globals(repo, res)
